@@ -4,3 +4,7 @@ open Irismod.Props.C11
 #print axioms mt_run_deterministic
 #print axioms mt_run_append
 #eval s!"nonvacuous {Irismod.Gen.Nondet.sites.length > 40 && Irismod.Spec.C11.offending.isEmpty}"
+#print axioms sorted_keys_order_independent
+#print axioms distinct_key_writes_order_independent
+#print axioms validation_verdict_order_independent
+#print axioms mt_export_order_independent
